@@ -20,15 +20,15 @@ def laterEvents (env : Env V) (ops : List (Op V)) (k : Nat) (c : Call V) (b : Na
     | none => []
   | none => []
 
-theorem callEvents_eq (env : Env V) (ex : Exports) (hwf : NamedIfaces ex) (ops : List (Op V)) (k : Nat)
+theorem callEvents_eq (env : Env V) (ex : Exports) (ops : List (Op V)) (k : Nat) (hwf : NamedIfaces (exportsAt ex ops k))
     (c : Call V) (b : Nat → Outcome V) (hk : ops[k]? = some (.call c b)) :
     callEvents env ex ops k =
-      callInv c (verdict ex c) ++ callReplies env k c b (verdict ex c) ++
-        laterEvents env ops k c b (verdict ex c) := by
+      callInv c (verdict (exportsAt ex ops k) c) ++ callReplies env k c b (verdict (exportsAt ex ops k) c) ++
+        laterEvents env ops k c b (verdict (exportsAt ex ops k) c) := by
   unfold callEvents laterEvents
   rw [hk]
-  simp only [handleCall_eq env ex k c b hwf, expectedCall_split]
-  cases callPending k c b (verdict ex c) with
+  simp only [handleCall_eq env (exportsAt ex ops k) k c b hwf, expectedCall_split]
+  cases callPending k c b (verdict (exportsAt ex ops k) c) with
   | none => rfl
   | some p => cases firstResolve k (List.drop (k + 1) ops) <;> rfl
 
@@ -59,18 +59,18 @@ theorem laterEvents_replyish (env : Env V) (ops : List (Op V)) (k : Nat) (c : Ca
       exact this
 
 /-- Replies of call `k`: the immediate ones, then the ones its Deferred fired. -/
-theorem replies_callEvents (env : Env V) (ex : Exports) (hwf : NamedIfaces ex) (ops : List (Op V)) (k : Nat)
+theorem replies_callEvents (env : Env V) (ex : Exports) (ops : List (Op V)) (k : Nat) (hwf : NamedIfaces (exportsAt ex ops k))
     (c : Call V) (b : Nat → Outcome V) (hk : ops[k]? = some (.call c b)) :
     replies (callEvents env ex ops k) =
-      replies (callReplies env k c b (verdict ex c)) ++ replies (laterEvents env ops k c b (verdict ex c)) := by
-  rw [callEvents_eq env ex hwf ops k c b hk, replies_append, replies_append, callInv_replies]
+      replies (callReplies env k c b (verdict (exportsAt ex ops k) c)) ++ replies (laterEvents env ops k c b (verdict (exportsAt ex ops k) c)) := by
+  rw [callEvents_eq env ex ops k hwf c b hk, replies_append, replies_append, callInv_replies]
   simp
 
 /-- Invocations of call `k`. -/
-theorem invocations_callEvents (env : Env V) (ex : Exports) (hwf : NamedIfaces ex) (ops : List (Op V)) (k : Nat)
+theorem invocations_callEvents (env : Env V) (ex : Exports) (ops : List (Op V)) (k : Nat) (hwf : NamedIfaces (exportsAt ex ops k))
     (c : Call V) (b : Nat → Outcome V) (hk : ops[k]? = some (.call c b)) :
-    invocations (callEvents env ex ops k) = expectedInvocations c (verdict ex c) := by
-  rw [callEvents_eq env ex hwf ops k c b hk, invocations_append, invocations_append,
+    invocations (callEvents env ex ops k) = expectedInvocations c (verdict (exportsAt ex ops k) c) := by
+  rw [callEvents_eq env ex ops k hwf c b hk, invocations_append, invocations_append,
     (callReplies_replyish env k c b _).invocations, (laterEvents_replyish env ops k c b _).invocations,
     callInv_invocations]
   simp
@@ -84,6 +84,8 @@ theorem callEvents_not_call (env : Env V) (ex : Exports) (ops : List (Op V)) (k 
   | some op =>
     cases op with
     | resolve j r => rfl
+    | exportObj pa o => rfl
+    | unexportObj pa => rfl
     | call c b => exact absurd hk (h c b)
 
 /-- Either the call was answered before the handler returned and nothing fires later, or nothing
@@ -97,14 +99,14 @@ theorem immediate_or_later (env : Env V) (ops : List (Op V)) (k : Nat) (c : Call
 
 /-- The replies to a dispatched call that expects one: what its result (now, or through the
 Deferred) makes `send_reply` / `send_error` send. -/
-theorem replies_run (env : Env V) (ex : Exports) (hwf : NamedIfaces ex) (ops : List (Op V)) (k : Nat)
+theorem replies_run (env : Env V) (ex : Exports) (ops : List (Op V)) (k : Nat) (hwf : NamedIfaces (exportsAt ex ops k))
     (c : Call V) (b : Nat → Outcome V) (hk : ops[k]? = some (.call c b)) (f : Func) (m : Method)
-    (hv : verdict ex c = .run f m) (he : c.expectReply = true) :
+    (hv : verdict (exportsAt ex ops k) c = .run f m) (he : c.expectReply = true) :
     replies (callEvents env ex ops k) =
       match resultOf ops k (b f.id) with
       | some res => replies (fire env (pendingOf k c m) res)
       | none => [] := by
-  rw [replies_callEvents env ex hwf ops k c b hk, hv]
+  rw [replies_callEvents env ex ops k hwf c b hk, hv]
   unfold laterEvents resultOf
   simp only [callReplies, callPending, he, if_true]
   cases b f.id with
@@ -114,14 +116,17 @@ theorem replies_run (env : Env V) (ex : Exports) (hwf : NamedIfaces ex) (ops : L
     simp only [replies, List.filterMap_nil, List.nil_append]
     cases firstResolve k (List.drop (k + 1) ops) <;> rfl
 
-theorem escapeNul_id (t : Str) (h : '\x00' ∉ t) : escapeNul t = t := by
-  unfold escapeNul
+theorem replaceChar_id (a : Char) (b t : Str) (h : a ∉ t) : replaceChar a b t = t := by
+  unfold replaceChar
   induction t with
   | nil => rfl
   | cons ch tl ih =>
-    have h1 : ch ≠ '\x00' := fun hh => h (by simp [hh])
-    have h2 : '\x00' ∉ tl := fun hh => h (by simp [hh])
+    have h1 : ch ≠ a := fun hh => h (by simp [hh])
+    have h2 : a ∉ tl := fun hh => h (by simp [hh])
     simp [List.flatMap_cons, h1, ih h2]
+
+theorem escapeNul_id (t : Str) (h : '\x00' ∉ t) : escapeNul t = t :=
+  replaceChar_id _ _ t h
 
 theorem verdict_run_iff (ex : Exports) (c : Call V) (f : Func) (m : Method) :
     verdict ex c = .run f m ↔ Runnable ex c f m := by
@@ -189,5 +194,86 @@ theorem verdict_invalidArgs_of (ex : Exports) (c : Call V) (o : Obj) (i : Iface)
   obtain ⟨⟨h1, h2⟩, h3⟩ := hh
   unfold verdict
   simp [h1, h2, h3, ho, ha, hs]
+
+/-! ### the text escape read off the source -/
+
+theorem escapeNul_no_nul (t : Str) : '\x00' ∉ escapeNul t := by
+  unfold escapeNul replaceChar
+  induction t with
+  | nil => simp
+  | cons ch tl ih =>
+    rw [List.flatMap_cons, List.mem_append]
+    rintro (h | h)
+    · by_cases hc : ch = '\x00'
+      · simp [hc] at h
+      · simp [hc] at h; exact hc h.symm
+    · exact ih h
+
+/-- The source under test carries the escape of repair C10-01 (this is a statement about the
+generated table: it fails to check when the line is removed or changed). -/
+theorem fixSource_eq_repaired : (fixSource : Str → Option Str) = fixRepaired := by
+  funext t
+  have h1 : Gen.Dispatch.textEscape = some (0, "\\x00") := by decide
+  have h2 : replaceChar (Char.ofNat 0) "\\x00".toList t = escapeNul t := by
+    have : "\\x00".toList = ['\\', 'x', '0', '0'] := by decide
+    rw [this]; rfl
+  unfold fixSource
+  rw [h1]
+  simp only [h2, fixRepaired]
+  have := escapeNul_no_nul t
+  simp [this]
+
+/-! ### well-formed histories -/
+
+theorem namedIfaces_dictSet (ex : Exports) (path : Str) (o : Obj) (h : NamedIfaces ex)
+    (ho : ∀ i ∈ declared o, i.name ≠ []) : NamedIfaces (dictSet ex path o) := by
+  induction ex with
+  | nil =>
+    intro e he i hi
+    simp [dictSet] at he
+    subst he
+    exact ho i hi
+  | cons e t ih =>
+    obtain ⟨k', v'⟩ := e
+    have ht : NamedIfaces t := fun e he => h e (List.mem_cons_of_mem _ he)
+    intro e he i hi
+    by_cases hk : k' = path
+    · simp only [dictSet, hk, if_true, List.mem_cons] at he
+      rcases he with he | he
+      · subst he; exact ho i hi
+      · exact ht e he i hi
+    · simp only [dictSet, hk, if_false, List.mem_cons] at he
+      rcases he with he | he
+      · subst he; exact h (k', v') (List.mem_cons_self) i hi
+      · exact ih ht e he i hi
+
+theorem namedIfaces_dictErase (ex : Exports) (path : Str) (h : NamedIfaces ex) :
+    NamedIfaces (dictErase ex path) := by
+  intro e he i hi
+  exact h e (List.mem_filter.mp he).1 i hi
+
+theorem namedIfaces_exportsAfter (ex : Exports) (ops : List (Op V)) (h : NamedIfaces ex)
+    (ho : ∀ path o, Op.exportObj path o ∈ ops → ∀ i ∈ declared o, i.name ≠ []) :
+    NamedIfaces (exportsAfter ex ops) := by
+  induction ops generalizing ex with
+  | nil => exact h
+  | cons op t ih =>
+    have ht : ∀ path o, Op.exportObj path o ∈ t → ∀ i ∈ declared o, i.name ≠ [] :=
+      fun path o hm => ho path o (List.mem_cons_of_mem _ hm)
+    cases op with
+    | call c b => exact ih ex h ht
+    | resolve j r => exact ih ex h ht
+    | exportObj pa o =>
+      exact ih _ (namedIfaces_dictSet ex pa o h (ho pa o List.mem_cons_self)) ht
+    | unexportObj pa => exact ih _ (namedIfaces_dictErase ex pa h) ht
+
+/-- A sufficient condition for `HistoryNamed`: the initial exports and every object exported in
+the history have named interfaces. -/
+theorem historyNamed_of (ex : Exports) (ops : List (Op V)) (h : NamedIfaces ex)
+    (ho : ∀ path o, Op.exportObj path o ∈ ops → ∀ i ∈ declared o, i.name ≠ []) :
+    HistoryNamed ex ops := by
+  intro k
+  exact namedIfaces_exportsAfter ex (ops.take k) h
+    (fun path o hm => ho path o (List.mem_of_mem_take hm))
 
 end Txdbus.Obj.DispatchProofs
